@@ -14,7 +14,7 @@ PROPERTY = "C14"
 LEVEL = "exploration"
 ENGINE = "sim"
 TECHNIQUE = "runtime monitor in a deterministic world: exactly-once counting of callback/errback invocations per registration and page epoch + bounded completion at quiescence"
-LEVEL_TEXT = ("Around a thousand (quick) to tens of thousands (thorough) of seeded schedules of 1-3 concurrent requests with up to 3 "
+LEVEL_TEXT = ("Several hundred to a thousand (quick) and five to fifteen thousand (thorough) of seeded schedules of 1-3 concurrent requests with up to 3 "
               "executions each, scripted retries, server errors, connection failures, client timeouts and late answers: per registered "
               "pair and page epoch #callback + #errback == 1, all registrations and result() agree on the same outcome object, a late "
               "registration fires exactly once immediately, and an outcome is present once every message sent for the epoch was "
@@ -27,7 +27,8 @@ QUICK_WORKERS = 4
 WORKERS = 14
 
 KNOWN_SLUGS = ('double-completion-after-speculative-executions', 'completion-after-timeout-by-late-response', 'double-timeout-error',
-               'earlier-page-execution-completes-later-page-fetch', 'timeout-error-after-completion')
+               'earlier-page-execution-completes-later-page-fetch', 'timeout-error-after-completion',
+               'response-dropped-after-another-requests-timeout')
 
 
 def _is_oto(ev):
@@ -64,11 +65,13 @@ def classify_multi(outs, own, stale_l, spec_on):
                 slug = 'double-timeout-error'
             else:
                 # a timeout error after the request was completed: known only as the consequence of a message that was answered or
-                # failed after the completion (the retry it triggers notices the elapsed timeout), or of an execution sent in the very
-                # instant of the completion (the speculative-execution timer re-arms the timeout after the completion cancelled it)
+                # failed after the completion (the retry it triggers notices the elapsed timeout), of an execution sent in the very
+                # instant of the completion (the speculative-execution timer re-arms the timeout after the completion cancelled it),
+                # or of the timer thread and an executor thread completing the future in the same instant
                 later = [a for a in own + stale_l if a['answered'] is not None and a['answered_ev'] >= first[4]]
                 same_instant = [a for a in own if a['op'] != 'PREPARE' and a['t'] >= first[2] - 1e-3]
-                slug = 'timeout-error-after-completion' if (later or same_instant) else 'timeout-error-after-completion-unexplained'
+                concurrent = o[2] - first[2] < 1e-3          # two threads completed the future in the same instant
+                slug = 'timeout-error-after-completion' if (later or same_instant or concurrent) else 'timeout-error-after-completion-unexplained'
         else:
             slug = None
             if any(_is_oto(b) for b in before):
@@ -229,9 +232,25 @@ def run_history(seed, knobs=None):
                         continue
                     count('quiescence_checks_all_messages_answered')
                     if not mon.outcomes():
-                        viol.append(('no-outcome-after-all-requests-answered',
-                                     'uid %d epoch %d at t=%.6f: %d messages sent, all answered or failed, nothing pending, but no callback/errback ran' % (
-                                         mon.uid, mon.epoch, world.now, len(arr)), mon))
+                        # Known interference: the timeout handler of ANOTHER request looked up (its new connection, its old stream id) and
+                        # removed this request's handler, so the answer was dropped.  Observable: another request timed out, it has a message
+                        # on the connection of one of this request's answered messages and a message with that message's stream id.
+                        culprit = None
+                        for other in mons.values():
+                            if other is mon or other.future is None or not any(_is_oto(x) for x in other.primary.events):
+                                continue
+                            theirs = [a for a in plan.arrivals if a['uid'] == other.uid]
+                            for m in arr:
+                                if any(t['conn'] == m['conn'] for t in theirs) and any(t['stream'] == m['stream'] and t is not m for t in theirs):
+                                    culprit = (other.uid, m['conn'], m['stream'])
+                        if culprit:
+                            viol.append(('response-dropped-after-another-requests-timeout',
+                                         'uid %d epoch %d at t=%.6f: its message on conn%d stream %d was answered but no callback/errback ran; request uid %d timed out before, '
+                                         'it used that connection and (elsewhere) that stream id' % (mon.uid, mon.epoch, world.now, culprit[1], culprit[2], culprit[0]), mon))
+                        else:
+                            viol.append(('no-outcome-after-all-requests-answered',
+                                         'uid %d epoch %d at t=%.6f: %d messages sent, all answered or failed, nothing pending, but no callback/errback ran' % (
+                                             mon.uid, mon.epoch, world.now, len(arr)), mon))
 
         def checkpoints():
             """late registration + result() for every future whose current epoch shows an outcome"""
@@ -438,7 +457,8 @@ def run(ctx):
                 "per-message node behaviour rows/void/hold/late/silent/error/unprepared/close/reset, registration points, schedule); distinct by "
                 "event-order signature of the world trace; non-trivial = at least one message was answered")
     ctx.assume("the timeout clause of bounded completion is evaluated for the first page only: whether later page fetches have a timeout at all is C15's statement")
-    ctx.assume("answers of one page epoch are delivered before the next page fetch is started (no stale answer crosses into a later epoch)")
+    ctx.assume("callback invocations are attributed to the page epoch current when they run; in 30 % of the page transitions answers of the finished epoch "
+               "are left outstanding on purpose (an answer crossing into a later epoch is classified by the messages answered during that epoch)")
     ctx.assume("void results are not served for paged statements; UNPREPARED is served to EXECUTE only")
     n = ctx.scale(4000, 200000)
     budget = 36 if ctx.quick else 400
@@ -475,7 +495,7 @@ def run(ctx):
             ctx.violation(mech, "%s [seed %d]" % (what, seed), {"seed": seed, "info": info, "future": hist.get(mon.uid)})
         if not viol and len(ctx.samples) < 4 and info['retry_decisions'] and info['messages'] >= 3:
             ctx.sample({"info": info, "futures": hist})
-    ctx.floor_distinct = 120 if ctx.quick else 3000
+    ctx.floor_distinct = 120 if ctx.quick else 2000
     ctx.floor_counters = {"histories": 150, "epochs_with_single_completion": 150, "registrations_compared": 300, "late_registrations_checked": 80,
                           "result_calls_compared": 100, "quiescence_checks_all_messages_answered": 150, "retry_decisions": 50,
                           "later_page_fetches": 20, "timeout_elapsed_checks": 150}
